@@ -32,7 +32,7 @@ var intCells = []string{"0", "1", "-1", "7", "+5", "007", "42", "-0", "123456789
 var bigIntCells = []string{"9223372036854775808", "9999999999999999999", "-9223372036854775809", "18446744073709551616", "+9223372036854775808"}
 var floatCells = []string{"1.5", "-0.25", "1e5", "NaN", "inf", "", ".5", "5.", "-Inf", "0x1p-2", "1e-320", "99999999999999999999", "3"}
 var boolCells = []string{"true", "false", "t", "F", "TRUE", "True", "T", "f"}
-var strPieces = []string{"a", "b", "ab", " ", "  ", "\"", "\"\"", ",", ";", "\t", "|", "x", "\n", "\n\n", "ä", "€", "\xff", "\xfe", "\ufffd", "\x80", "0", "1", "-", "e", ".", "true", "'", "\\", "%", "q\"q", "a,b", "line1\nline2"}
+var strPieces = []string{"a", "b", "ab", " ", "  ", "\"", "\"\"", ",", ";", "\t", "|", "x", "\n", "\n\n", "ä", "€", "\xff", "\xfe", "\ufffd", "\x80", "0", "1", "-", "e", ".", "true", "'", "\\", "%", "q\"q", "a,b", "line1\nline2", "null", "NULL", "\ufeff", "N/A"}
 
 func genCell(t *rapid.T, profile int) string {
 	switch profile {
@@ -78,7 +78,7 @@ func genCell(t *rapid.T, profile int) string {
 	return sb.String()
 }
 
-var csvNames = []string{"a", "b", "c", "d", "e", "f", "col 1", "ä", "x,y", "q\"", "A", "long name with blanks", "n\nl"}
+var csvNames = []string{"a", "b", "c", "d", "e", "f", "col 1", "ä", "x,y", "q\"", "A", "long name with blanks", "n\nl", "''", "\"\"", "\ufeffbom", "null", " pad "}
 
 type csvCase struct {
 	doc      hx.CSVDoc
